@@ -2,7 +2,7 @@
    plus non-vacuity examples (concrete runs of the model in which each clause's hypotheses hold). *)
 From Coq Require Import List NArith ZArith Bool Lia.
 From BLB Require Import Gen.Consts Store.Bytes Store.BytesProofs Store.MapProofs Store.Model Store.Proofs Store.WF Store.Conflict Store.Mono
-     Store.Steps Store.Monotone Store.Readd Store.FaultModel Store.Faults C09.Model.
+     Store.Steps Store.Monotone Store.Readd Store.FaultModel Store.Faults Store.Crash Store.CrashProofs C09.Model.
 Import ListNotations.
 
 Lemma reachable_wf_lemma : forall m ops, wf (run (init m) ops).
@@ -311,6 +311,38 @@ Proof.
     rewrite skipn_all2 by (unfold zeros_l; rewrite repeat_length; lia). now rewrite app_nil_r.
 Qed.
 
+(* ---------- power loss ---------- *)
+Lemma acked_bump_lemma :
+  forall m xs f t v cond cs' f' rv pd fl,
+    let cs := xrun (cinit m) xs in
+    open_existing (vs cs) t = Op_ok pd fl ->
+    x_set_version cs f t v cond = (cs', f', (E_OK, rv)) ->
+    exists c', (v <= c')%Z /\
+      durable_copy cs' pd t = Some (mkfile (Some c') (f_data fl)) /\
+      copy (vs cs') pd t = Some (mkfile (Some c') (f_data fl)) /\
+      copy (vs (power_loss cs')) pd t = Some (mkfile (Some c') (f_data fl)) /\
+      (forall s3, add_disk (vs (power_loss cs')) pd = (s3, E_OK) ->
+          cur s3 t = Some (mkfile (Some c') (f_data fl)) /\
+          forall v0 d off, v0 <> c' ->
+            snd (do_write s3 t v0 d off) <> E_OK /\ disks (fst (do_write s3 t v0 d off)) = disks s3).
+Proof.
+  intros m xs f t v cond cs' f' rv pd fl cs HO H.
+  destruct (acked_bump_synced cs f t v cond cs' f' rv pd fl HO H) as (DN & c' & C & L & _).
+  exists c'. split; [exact L|]. split; [unfold durable_copy; now rewrite DN|]. split; [exact C|].
+  pose proof (power_loss_keeps_synced cs' pd t DN) as PL. rewrite C in PL.
+  split; [exact PL|]. intros s3 HA.
+  assert (W : wf (vs (power_loss cs'))) by apply wf_restart.
+  assert (HN : forall t0, copy (vs (power_loss cs')) pd t0 <> None -> lookup (vs (power_loss cs')) t0 = None)
+    by (intros; reflexivity).
+  destruct (add_disk_no_conflict _ pd s3 W HA HN) as [_ CU].
+  assert (Cu : cur s3 t = Some (mkfile (Some c') (f_data fl))) by (rewrite CU, PL; reflexivity).
+  split; [exact Cu|]. intros v0 d off Hne.
+  pose proof (write_fence s3 t v0 d off) as WF. destruct (do_write s3 t v0 d off) as [s4 e].
+  destruct WF as (W1 & W2 & _). simpl.
+  assert (CV : cur_ver s3 t <> Some v0) by (unfold cur_ver; rewrite Cu; simpl; congruence).
+  split; [intros X; apply CV; now apply W1|]. rewrite (W2 CV). apply bump_stamp_disks.
+Qed.
+
 (* ---------- non-vacuity: concrete histories in which the clauses' hypotheses hold ---------- *)
 Open Scope N_scope.
 Definition d5 : rle := [(3, 5)].
@@ -426,4 +458,17 @@ Example ex_bytes :
   rle_write [(3, 5)] [(2, 7)] 5 = [(3, 5); (2, 0); (2, 7)]%N /\
   expand (rle_read [(3, 5); (2, 0); (2, 7)] 2 4) = [5; 0; 0; 7]%N /\
   plain_write [5; 5; 5]%N [7; 7]%N 5 = [5; 5; 5; 0; 0; 7; 7]%N.
+Proof. vm_compute. auto. Qed.
+
+(* ---------- non-vacuity for the power-loss theorems ---------- *)
+(* tract 0 at version 2 on disk 0 (h1).  A bump to 3 whose Close (3rd faultable call: Open, Setxattr, Close)
+   fails is NOT acknowledged and a power loss takes it back; the same bump without fault is acknowledged and
+   survives the power loss. *)
+Example ex_power_loss :
+  let cs := xrun (cinit false) (map (XOp None) h1) in
+  (let '(cs1, r1) := x_step cs (Some 2%nat) (SetVersion 0 3%Z None) in
+   r1 = RSetV E_IO 3%Z /\ cur_ver (vs cs1) 0 = Some 3%Z /\
+   copy (vs (power_loss cs1)) 0 0 = Some (mkfile (Some 2%Z) d5)) /\
+  (let '(cs2, r2) := x_step cs None (SetVersion 0 3%Z None) in
+   r2 = RSetV E_OK 3%Z /\ copy (vs (power_loss cs2)) 0 0 = Some (mkfile (Some 3%Z) d5)).
 Proof. vm_compute. auto. Qed.
